@@ -11,6 +11,11 @@ type Labeler struct{}
 func (Labeler) Name() string           { return "labels" }
 func (Labeler) Before(x *Exec, op *Op) {}
 func (Labeler) End(x *Exec)            {}
+func (Labeler) AfterHalt(x *Exec, op *Op, res *Res) {
+	x.Label(res.Class() + ":" + op.K)
+	x.Label("halted")
+}
+
 func (Labeler) After(x *Exec, op *Op, res *Res) {
 	x.Label(res.Class() + ":" + op.K)
 	pre, post := x.Pre(), x.Post()
